@@ -68,7 +68,12 @@ def c01_check(nodes: Dict[str, Dict[str, Any]], events: List[Dict[str, Any]]) ->
                 # applies only if the scheduler knew: the controller had recorded P's final state before the
                 # pass that submitted X began, or the scheduler itself finished P earlier in this very pass.
                 th = e.get("thread")
-                known = (p in recorded_final and recorded_final[p] < pass_start.get(th, 0)) or \
+                # "Before the pass began" is decided on the lock the controller itself uses: finishedCheck(P) needs
+                # comp_lock, and the scheduler decides about X and runs X inside ONE comp_lock section; so when
+                # finishedCheck(P) has returned before X.run(), the whole decision was made after P's final state was
+                # recorded (a pass that had decided earlier would still hold the lock and finishedCheck(P) could not
+                # have returned yet).
+                known = (p in recorded_final and recorded_final[p] < e["seq"]) or \
                         (p in decided_in_pass.get(th, ()))
                 if not known:
                     cnt["subject_final_unrecorded_at_submission"] += 1
